@@ -4,9 +4,10 @@ CONSTANTS
   MaxClip = 6
   Clip3s = {0, 2}
   ReadLens = {10}
-  FlankIds = {2, 4}
+  FlankIds = {2}
   FlankPairs = "diag"
-  MMBases = {"A", "T"}
+  MMBases = {"T", "N"}
+  BoundaryPs = {0, 1, 2}
   XBases = {"A"}
   Protos = {"nla", "chic"}
   Variant = "design"
